@@ -445,7 +445,28 @@ def mutational_timescale(
     adjust = np.cumsum(adjust)
     origin = epoch_breaks[changepoints]
 
-    return origin, adjust
+    # Intervals without mutations (or of zero duration) would make the
+    # time rescaling non-invertible: merge them into their neighbours, so
+    # that both sets of breakpoints are strictly increasing
+    keep = np.full(origin.size, False)
+    keep[0] = True
+    last = 0
+    prev = 0
+    for k in range(1, origin.size):
+        if origin[k] > origin[last] and adjust[k] > adjust[last]:
+            keep[k] = True
+            prev = last
+            last = k
+    end = origin.size - 1
+    if last == 0:  # no information: leave the time scale as it is
+        return origin[np.array([0, end])], origin[np.array([0, end])]
+    if last != end:  # merge trailing intervals into the last informative one
+        keep[last] = False
+        keep[end] = True
+        if not (origin[end] > origin[prev] and adjust[end] > adjust[prev]):
+            return origin[np.array([0, end])], origin[np.array([0, end])]
+
+    return origin[keep], adjust[keep]
 
 
 @numba.njit(_f2w(_f2r, _b1r, _f1r, _f1r, _f, _f))
